@@ -528,27 +528,28 @@ class Dist(_Split):
 
     def shapes(self, tier):
         out = []
-        nmax = 3 if tier == "quick" else 4
         if tier == "quick":
-            plan = {"h12": [("fastq", 2, False), ("bam", 4, True)], "o2": [("fastq", 4, True)], "o3": [("bam", 2, True)]}
-        else:
-            allc = [(f, c, h) for f in ("fastq", "bam") for c in (2, 4) for h in (False, True)]
-            half = [("fastq", 4, True), ("bam", 2, False), ("fastq", 2, True), ("bam", 4, False)]
-            plan = {"h12": allc, "o2": half, "o3": [("bam", 4, True), ("fastq", 2, False), ("bam", 2, True), ("fastq", 4, False)]}
-        for api, combos in plan.items():
-            for fmt, cols, header in combos:
-                for n in range(1, nmax + 1):
-                    # quick: the name that no read carries is either not listed or tagged H1
-                    out += _spread(dict(fmt=fmt, cols=cols, header=header, api=api, n=n, pool=3, listonly="lite" if tier == "quick" else True))
+            plan = [("h12", "fastq", 2, False, 3), ("h12", "bam", 4, True, 3), ("o2", "fastq", 4, True, 3), ("o3", "bam", 2, True, 3)]
+        else:  # (api, format, columns, header, max reads)
+            plan = [
+                ("h12", "fastq", 2, False, 4), ("h12", "bam", 4, True, 4), ("h12", "fastq", 4, True, 3), ("h12", "bam", 2, False, 3),
+                ("h12", "fastq", 2, True, 2), ("h12", "bam", 4, False, 2), ("h12", "fastq", 4, False, 2), ("h12", "bam", 2, True, 2),
+                ("o2", "fastq", 4, True, 4), ("o2", "bam", 2, False, 3),
+                ("o3", "bam", 2, True, 4), ("o3", "fastq", 4, False, 3),
+            ]
+        for api, fmt, cols, header, nmax in plan:
+            for n in range(1, nmax + 1):
+                # quick: the name that no read carries is either not listed or tagged H1
+                out += _spread(dict(fmt=fmt, cols=cols, header=header, api=api, n=n, pool=3, listonly="lite" if tier == "quick" else True))
         if tier == "thorough":
-            out += [dict(s, rev=True) for s in out if s["n"] == 3 and s["api"] == "h12"]
+            out += [dict(s, rev=True) for s in out if s["n"] == 3 and s["api"] == "h12" and s["fmt"] == "fastq" and s["cols"] == 2 and not s["header"]]
         return _big_first(out)
 
     def bounds(self, tier):
         return (
             "reads <= %d with names from a pool of 3 (every duplicate pattern, first-occurrence order), list = optional entry (none/H1..Hp) for each pool name "
             "and for one name absent from the reads (quick: absent or H1 only; <= 4 lines, fixed order%s), 2- and 4-column lists with/without header, FASTQ and unaligned BAM "
-            "(quick: 4 of the 24 format x columns x header x API combinations, thorough: 16), APIs --output-h1/-h2 (every non-empty subset) and -o x2 / -o x3, untagged output requested or not, --add-untagged and --discard-unknown-reads symbolic; "
+            "(quick: 4 of the 24 format x columns x header x API combinations at <= 3 reads; thorough: 12, of which 4 at <= 4 reads, 4 at <= 3, 4 at <= 2), APIs --output-h1/-h2 (every non-empty subset) and -o x2 / -o x3, untagged output requested or not, --add-untagged and --discard-unknown-reads symbolic; "
             "%d shapes" % (3 if tier == "quick" else 4, "" if tier == "quick" else " and reversed for 3 reads", len(self.shapes(tier)))
         )
 
@@ -567,12 +568,14 @@ class Hist(_Split):
 
     def shapes(self, tier):
         out = []
-        nmax = 2 if tier == "quick" else 3
-        combos = [("fastq", 2, True), ("bam", 4, True)] if tier == "quick" else [("fastq", 2, True), ("fastq", 4, False), ("bam", 4, True), ("bam", 2, False)]
-        for fmt, cols, header in combos:
-            for api in ("h12", "o3"):
-                for n in range(1, nmax + 1):
-                    out += _spread(dict(fmt=fmt, cols=cols, header=header, api=api, n=n, pool=2, listonly=False))
+        if tier == "quick":
+            plan = [("fastq", 2, True, "h12", 2), ("fastq", 2, True, "o3", 2), ("bam", 4, True, "h12", 2), ("bam", 4, True, "o3", 2)]
+        else:
+            plan = [("fastq", 2, True, "h12", 2), ("fastq", 2, True, "o3", 3), ("bam", 4, True, "h12", 3), ("bam", 4, True, "o3", 2),
+                    ("fastq", 4, False, "h12", 2), ("fastq", 4, False, "o3", 2), ("bam", 2, False, "h12", 2), ("bam", 2, False, "o3", 2)]
+        for fmt, cols, header, api, nmax in plan:
+            for n in range(1, nmax + 1):
+                out += _spread(dict(fmt=fmt, cols=cols, header=header, api=api, n=n, pool=2, listonly=False))
         return _big_first(out)
 
     def bounds(self, tier):
@@ -600,7 +603,7 @@ class Largest(_Split):
         if tier == "quick":
             plan = [("fastq", True, "h12", 2), ("bam", False, "h12", 1)]
         else:
-            plan = [(f, h, api, n) for f, h in (("fastq", True), ("bam", False)) for api in ("h12", "o3") for n in (1, 2, 3)]
+            plan = [("fastq", True, "h12", 1), ("fastq", True, "h12", 2), ("fastq", True, "h12", 3), ("bam", False, "h12", 1), ("bam", False, "h12", 2), ("fastq", True, "o3", 1), ("fastq", True, "o3", 2)]
         for fmt, header, api, n in plan:
             out += _spread(dict(fmt=fmt, cols=4, header=header, api=api, n=n, pool=3, listonly=False), always=True)
         return _big_first(out)
